@@ -206,6 +206,41 @@ theorem mutex_safe (lists : List (List Int)) (s : Mutex.St) (h : Mutex.sys.Reach
   have b := hi.excl j wj h2 p2
   rw [a] at b; exact Option.some.inj b
 
+/-! ## n goroutines inside the same select statement -/
+
+/-- `selN_outcome`: n goroutines execute the same select statement r times, each on its own channel holding at
+    least r values; the case list belongs to the execution that evaluated it.  For every scheduler stream the run
+    terminates and goroutine i has received exactly the first r values of ITS channel, in order. -/
+theorem selN_outcome (r : Nat) (lists : List (List Int)) (hr : ∀ l ∈ lists, r ≤ l.length)
+    (sched : Nat → Nat) (fuel : Nat) (hf : 2 * r * lists.length ≤ fuel) :
+    SelN.result (SelN.sys.run sched fuel 0 (SelN.init false r lists)) = some (lists.map (List.take r)) := by
+  have hr0 := Sys.reach_trans_step SelN.sys (Sys.Reach.refl (S := SelN.sys) (s0 := SelN.init false r lists)) sched fuel 0
+  have hi : SelN.Inv r lists _ :=
+    Sys.inv_of_reach _ _ (SelN.inv_init r lists hr) (fun s a hi ha => SelN.inv_step hi ha) hr0
+  have hstop := Sys.run_stops SelN.sys (SelN.Inv r lists) SelN.mu
+    (fun s a hi ha => SelN.inv_step hi ha) (fun s a hi ha => SelN.mu_dec hi ha) sched fuel 0 _
+    (SelN.inv_init r lists hr) (by rw [SelN.mu_init]; exact hf)
+  have hfin := SelN.stuck_fin hi hstop
+  simp [SelN.result, hfin, SelN.fin_result hi hfin]
+
+/-- in every reachable state each goroutine has received a prefix of its OWN channel and nothing else -/
+theorem selN_safe (r : Nat) (lists : List (List Int)) (hr : ∀ l ∈ lists, r ≤ l.length) (s : SelN.St)
+    (h : SelN.sys.Reach (SelN.init false r lists) s) :
+    (∀ (i : Nat) (g : SelN.G), s.gs[i]? = some g → ∃ l, lists[i]? = some l ∧ g.got ++ g.ch = l) ∧
+    (SelN.sys.en s = [] → SelN.finished s = true) := by
+  have hi : SelN.Inv r lists s :=
+    Sys.inv_of_reach _ _ (SelN.inv_init r lists hr) (fun s a hi ha => SelN.inv_step hi ha) h
+  refine ⟨fun i g hg => ?_, SelN.stuck_fin hi⟩
+  obtain ⟨l, hl, gi⟩ := hi.each i g hg
+  exact ⟨l, hl, gi.hist⟩
+
+/-- with ONE case list shared by all executions of the statement (not Go) a schedule exists in which a goroutine
+    receives from another goroutine's channel: the model distinguishes the two designs -/
+theorem shared_cases_witness :
+    ∃ sched, SelN.result (SelN.sys.run sched 10 0 (SelN.init true 1 [[1, 2], [10, 20]])) = some [[10], [20]] := by
+  refine ⟨fun i => [0, 1, 0, 0].getD i 0, ?_⟩
+  decide
+
 /-! ## go statement (instance of C33) -/
 
 /-- `go_handover_owned`: in every reachable state of the registry protocol, the child of a go statement
@@ -234,6 +269,7 @@ example : FanIn.result (FanIn.sys.run (fun i => i * 7 + 3) 100 0 (FanIn.init 0 [
 example : Pipe2.result (Pipe2.sys.run (fun i => i * 5 + 1) 100 0 (Pipe2.init ⟨2, 1⟩ ⟨-1, 3⟩ 0 2 1 [1, 2, 3])) = some [0, -2, -4] := by decide
 example : Merge.result (Merge.sys.run (fun i => i * 3) 100 0 (Merge.init true 0 1 [1, 2] [10])) = some 13 := by decide
 example : Mutex.result (Mutex.sys.run (fun i => i * 5 + 2) 100 0 (Mutex.init true [[1, 2], [3], [4, 5, 6]])) = some 21 := by decide
+example : SelN.result (SelN.sys.run (fun i => i * 3 + 1) 100 0 (SelN.init false 2 [[1, 2, 3], [10, 20], [7, 8, 9, 10]])) = some [[1, 2], [10, 20], [7, 8]] := by decide
 /-- schedules matter in the model: without the mutex two workers lose an update -/
 theorem racy_counter_loses_update :
     ∃ sched, Mutex.result (Mutex.sys.run sched 20 0 (Mutex.init false [[1], [1]])) = some 1 := by
